@@ -80,6 +80,7 @@ type contractDB struct {
 	immutable  map[string]bool // Struct.field: written only at construction, modelled as a pure function
 	frozen     map[string]bool // Struct.field holding a map whose contents never change once stored
 	frozenType map[string]bool // named map types whose values never change once converted
+	neverClosedType map[string]bool // element types T: no channel of T is ever closed in /repo
 	neverClosed map[string]bool // Struct.field channels that no code in /repo closes (receives never see "closed")
 	nonnilGlobal map[string]bool // package-level variables initialised once with a non-nil value and never reassigned
 	owners      map[string][]string // owner function -> fields (Struct.field) only it (and its callees) may touch
@@ -96,7 +97,7 @@ var clauseKeywords = map[string]bool{
 var blockRe = regexp.MustCompile(`(?s)/\*@(.*?)@\*/`)
 
 func loadContracts(files []string) (*contractDB, error) {
-	db := &contractDB{theories: map[string]*block{}, funcs: map[string]*block{}, ifaces: map[string]*block{}, chaninv: map[string]*block{}, lemmas: map[string]*block{}, immutable: map[string]bool{}, frozen: map[string]bool{}, frozenType: map[string]bool{}, neverClosed: map[string]bool{}, nonnilGlobal: map[string]bool{}, owners: map[string][]string{}, nonblocking: map[string]bool{}}
+	db := &contractDB{theories: map[string]*block{}, funcs: map[string]*block{}, ifaces: map[string]*block{}, chaninv: map[string]*block{}, lemmas: map[string]*block{}, immutable: map[string]bool{}, frozen: map[string]bool{}, frozenType: map[string]bool{}, neverClosed: map[string]bool{}, neverClosedType: map[string]bool{}, nonnilGlobal: map[string]bool{}, owners: map[string][]string{}, nonblocking: map[string]bool{}}
 	sort.Strings(files)
 	for _, f := range files {
 		data, err := os.ReadFile(f)
@@ -153,7 +154,11 @@ func (db *contractDB) add(b *block) error {
 		}
 	case "neverclosed":
 		for _, g := range b.globs {
-			db.neverClosed[g] = true
+			if strings.HasPrefix(g, "type:") {
+				db.neverClosedType[strings.TrimPrefix(g, "type:")] = true
+			} else {
+				db.neverClosed[g] = true
+			}
 		}
 	case "nonnil-global":
 		for _, g := range b.globs {
